@@ -183,6 +183,8 @@ def check_result(part, obj, version, case, feat):
             if rule.startswith("objref") and (".extensions." in path or "[" in path.split(".")[-2] if "." in path else False):
                 # one defect whatever the corruption: 2.0 object references held by an extension or an embedded object are not checked
                 feat = "inside-extension-or-embedded-object"
+            if rule == "at-least-one":
+                feat = "%s/%s" % (case.get("key", "?").split(":")[-1], feat)
             part.violation("C02/emits-invalid/%s/%s" % (rule, feat), "strict construction succeeded and the serialization violates the specification", dict(case, invalid_at=path),
                            "refused, or normalised into valid output", "%s: %s" % (path, msg))
             return
